@@ -133,6 +133,7 @@ func ruleErrBeforeEffect(c *Ctx) {
 				From:      Loc{m.Block, m.Idx, m.Node},
 				Target:    isNegReturn,
 				Correlate: true,
+				Gen:       freshLookupFacts(info, fresh),
 				EdgeOK: func(b *cfg.Block, si int) bool {
 					if deleteResultNilEdge(info, fg, b, si, m.Node) {
 						return false
@@ -327,6 +328,7 @@ func ruleEmptyCollection(c *Ctx) {
 				Target:    func(l Loc) bool { _, ok := l.Node.(*ast.ReturnStmt); return ok },
 				Avoid:     isFill,
 				Correlate: true,
+				Gen:       freshLookupFacts(info, col),
 				EdgeOK:    func(b *cfg.Block, si int) bool { return !assertsGetNonNil(info, fg, b, si, col) },
 			})
 			if empty {
@@ -341,4 +343,43 @@ func ruleEmptyCollection(c *Ctx) {
 		}
 	}
 	c.stat("delete_and_create_sites", n)
+}
+
+// freshLookupFacts: p := <fresh>.Get(id) on a collection created on this path yields nil.
+func freshLookupFacts(info *types.Info, fresh types.Object) func(ast.Node, map[identFact]bool) map[identFact]bool {
+	if fresh == nil {
+		return nil
+	}
+	return func(n ast.Node, facts map[identFact]bool) map[identFact]bool {
+		as, ok := n.(*ast.AssignStmt)
+		if !ok || len(as.Lhs) != 1 || len(as.Rhs) != 1 {
+			return facts
+		}
+		call, ok := ast.Unparen(as.Rhs[0]).(*ast.CallExpr)
+		if !ok {
+			return facts
+		}
+		f := callee(info, call)
+		if f == nil || !isMethod(f, colPath, "Collection", "Get") {
+			return facts
+		}
+		se, ok := ast.Unparen(call.Fun).(*ast.SelectorExpr)
+		if !ok {
+			return facts
+		}
+		x, ok := ast.Unparen(se.X).(*ast.Ident)
+		if !ok || info.ObjectOf(x) != fresh {
+			return facts
+		}
+		id, ok := as.Lhs[0].(*ast.Ident)
+		if !ok || info.ObjectOf(id) == nil {
+			return facts
+		}
+		out := map[identFact]bool{}
+		for k, v := range facts {
+			out[k] = v
+		}
+		out[identFact{info.ObjectOf(id), true}] = true
+		return out
+	}
 }
